@@ -417,7 +417,7 @@ func (P *Prog) checkDecodeFailure(r *Result) {
 	codeF := structField(R.ZogIssue, "Code")
 	type spec struct{ fn, code string }
 	for _, sp := range []spec{{"zog/parsers/zjson.Decode$1", "invalid_json"}, {"zog/zhttp.Config.Parsers.Form(func)$1", "invalid_form"}} {
-		fn := returnedClosure(P.fn(strings.TrimSuffix(sp.fn, "$1")))
+		fn := peelDelegation(returnedClosure(P.fn(strings.TrimSuffix(sp.fn, "$1"))))
 		if fn == nil {
 			r.undecided("C15/decode-failure", sp.fn, "-", "closure not found")
 			continue
@@ -435,7 +435,11 @@ func (P *Prog) checkDecodeFailure(r *Result) {
 				return
 			}
 			prov, iss := rv[0], rv[1]
-			failGuard := false
+			// a return is the success return iff it is reached knowing that the decoding error is nil and not knowing the
+			// decoded value to be nil; every other return reports a failure. (Failure-first code reaches its success
+			// return on the false edges of `err != nil` and `m == nil`; success-first code tests `err == nil && m != nil`
+			// and falls through to the one failure return.)
+			errNil, valNil := false, false
 			for _, gd := range guardsOf(b) {
 				x, eq, isN := isNilCompare(gd.If.Cond)
 				if !isN {
@@ -443,13 +447,14 @@ func (P *Prog) checkDecodeFailure(r *Result) {
 				}
 				isNil := gd.True == eq
 				if types.Identical(x.Type(), types.Universe.Lookup("error").Type()) {
-					if !isNil {
-						failGuard = true // err != nil
+					if isNil {
+						errNil = true
 					}
 				} else if isNil {
-					failGuard = true // decoded value is nil
+					valNil = true // decoded value is nil
 				}
 			}
+			failGuard := !errNil || valNil
 			if failGuard {
 				nFail++
 				if !isNilConst(prov) {
@@ -1371,24 +1376,38 @@ func (P *Prog) checkListKeyAlwaysList(r *Result, rule string) {
 					if !isRt || len(rt.Results) == 0 {
 						return
 					}
-					// a boxed list of strings ([]string, or url.Values' element type)
-					v := rt.Results[0]
-					mi, isMI := v.(*ssa.MakeInterface)
-					if !isMI {
-						return
-					}
-					sl, isSl := mi.X.Type().Underlying().(*types.Slice)
-					if !isSl {
-						return
-					}
-					if bt, isB := sl.Elem().Underlying().(*types.Basic); !isB || bt.Info()&types.IsString == 0 {
-						return
-					}
-					for _, gd := range guardsOf(b) {
-						if suffixTest(gd.If.Cond, 0) {
-							ok = true
+					// a boxed list of strings ([]string, or url.Values' element type), returned directly or through a
+					// result variable (`out = v` ... `return out`: each edge of the merged value under its own guards)
+					var look func(v ssa.Value, gds []guard, d int)
+					look = func(v ssa.Value, gds []guard, d int) {
+						if d > 4 || v == nil {
+							return
+						}
+						if ph, isPhi := v.(*ssa.Phi); isPhi {
+							for i, e := range ph.Edges {
+								pb := ph.Block().Preds[i]
+								look(e, append(append([]guard{}, guardsOf(pb)...), guardsOfEdge(pb, ph.Block())...), d+1)
+							}
+							return
+						}
+						mi, isMI := v.(*ssa.MakeInterface)
+						if !isMI {
+							return
+						}
+						sl, isSl := mi.X.Type().Underlying().(*types.Slice)
+						if !isSl {
+							return
+						}
+						if bt, isB := sl.Elem().Underlying().(*types.Basic); !isB || bt.Info()&types.IsString == 0 {
+							return
+						}
+						for _, gd := range gds {
+							if suffixTest(gd.If.Cond, 0) {
+								ok = true
+							}
 						}
 					}
+					look(rt.Results[0], guardsOf(b), 0)
 				})
 			})
 		}
